@@ -2618,3 +2618,24 @@ def lib_list_join(interp, st, args, kwargs, node):
 
 
 LIBFUNCS.update({"muutils.misc.list_join": lib_list_join})
+
+
+def dict_fromkeys(interp, st, args, kwargs, node):
+    """dict.fromkeys(xs) for a list xs of maze objects, used as `list(dict.fromkeys(xs))`: the elements of xs that are not == to an EARLIER element, in
+    their original order (a dict keeps the first key of every class of equal keys and iterates in insertion order).  Trusted: that meaning of dict,
+    which needs == to be an equivalence and equal keys to hash equal (the latter is lemma hash_consistent of C09); == of two mazes is
+    LatticeMaze.__eq__, proved equal to the specification maze_equal under C09."""
+    from .filt import FiltList
+    from . import spec as SP
+
+    if kwargs or len(args) != 1 or not isinstance(args[0], SymList) or not isinstance(args[0].tmpl, Rec):
+        raise Outside("dict.fromkeys other than of one symbolic-length list of records", node)
+    src = args[0]
+    if src.tmpl.cls not in ("LatticeMaze", "TargetedLatticeMaze", "SolvedMaze"):
+        raise Outside("dict.fromkeys of records that are not mazes", node)
+    _trust("dict.fromkeys(xs) keeps the first of every class of ==-equal keys, in insertion order (== of mazes: LatticeMaze.__eq__ = maze_equal, C09; equal mazes hash equal: lemma hash_consistent)")
+    n = to_z3(as_int(src.length))
+    k, j = z3.Int(V.fresh_name("fk")), z3.Int(V.fresh_name("fj"))
+    eq = SP.sp_maze_equal(interp, st, [src.get(j), src.get(k)], {}, node)
+    keep = z3.Lambda([k], z3.And(k >= 0, k < n, z3.Not(z3.Exists([j], z3.And(j >= 0, j < k, to_z3(eq))))))
+    return FiltList(src, keep)
